@@ -3,6 +3,7 @@
 -/
 import OptreeModel.Model.Compare
 import OptreeModel.Lemmas.EncPrefix
+import OptreeModel.Lemmas.EncFlatten
 
 namespace Optree
 
@@ -143,6 +144,20 @@ theorem C07_is_prefix_total (a b : STree) (ha : a.wf = true) (hb : b.wf = true)
 /-- a prefix never has more nodes (so the size guard of `IsPrefix` never changes the answer) -/
 theorem C07_prefix_not_larger (a b : STree) (ha : a.wf = true) (hb : b.wf = true)
     (h : a.prefixB b = true) : a.size ≤ b.size := STree.prefixB_size a ha b hb h
+
+/-- the same for treespecs made by flattening any two well-formed trees under one configuration: they
+are encodings of well-formed shapes (`flatten_isEnc`), so `is_prefix` decides the prefix relation of
+their shapes -/
+theorem C07_is_prefix_of_flatten (cfg : Cfg) (t u : PyObj) (ht : t.wf = true) (hu : u.wf = true)
+    (lt lu : List PyObj) (st su : Spec) (h1 : flatten cfg t = .ok (lt, st)) (h2 : flatten cfg u = .ok (lu, su))
+    (strict : Bool) :
+    ∃ a b : STree, a.wf = true ∧ b.wf = true ∧ lt.length = a.leaves ∧ lu.length = b.leaves ∧
+      isPrefix st su strict = .ok (nsCompatible st.ns su.ns && a.prefixB b && (!strict || !a.sameB b)) := by
+  obtain ⟨a, ha, ea, la⟩ := flatten_isEnc cfg t ht lt st h1
+  obtain ⟨b, hb, eb, lb⟩ := flatten_isEnc cfg u hu lu su h2
+  refine ⟨a, b, ha, hb, la, lb, ?_⟩
+  rw [ea, eb, C07_is_prefix_refines a b ha hb]
+  simp [STree.spec]
 
 /-- non-vacuity, on the witness of the repaired defect: `OD(a=OD(x=*,y=*), b=*)` is a prefix of
 `OD(b=*, a=OD(y=(*,), x=*))` (outer and inner dict both re-ordered, unequal sub-tree sizes) -/
